@@ -298,7 +298,7 @@ def canonical_hash(case) -> str:
     return hashlib.sha1(json.dumps(case, sort_keys=True, default=str).encode()).hexdigest()
 
 
-def run_part(prop, engine_mod, tier, seed, workdir, replay_case=None):
+def run_part(prop, engine_mod, tier, seed, workdir, replay_case=None, amplify=False):
     """One engine's share of a property check.  Returns a dict with counts, violations, notes."""
     engine = importlib.import_module(engine_mod)
     rng = random.Random(seed)
@@ -315,6 +315,11 @@ def run_part(prop, engine_mod, tier, seed, workdir, replay_case=None):
         for label, c in engine.generate(prop, rng, tier):
             cases.append(c)
             strata[label] = strata.get(label, 0) + 1
+        if amplify and tier == "quick":
+            # an anchored source file changed since anchors.lock: spend more cases on this property
+            for label, c in engine.generate(prop, random.Random(seed + 104729), "search"):
+                cases.append(c)
+                strata["amplified:" + label] = strata.get("amplified:" + label, 0) + 1
     pool = ImplPool(engine_mod)
     matched = {}
     try:
@@ -430,8 +435,11 @@ def run_check(prop: str, engine_mods, tier: str, seed: int, replay: str | None =
             rdata = json.load(open(replay))
             replay_case = rdata["case"]
             engine_mods = [rdata["engine"]]
+        from . import anchors
+        anchors_changed = anchors.changed(prop, REPO)
         for k, em in enumerate(engine_mods):
-            part = run_part(prop, em, tier, seed + k, os.path.join(workdir, f"p{k}"), replay_case)
+            part = run_part(prop, em, tier, seed + k, os.path.join(workdir, f"p{k}"), replay_case,
+                            amplify=bool(anchors_changed))
             parts.append(part)
             violations.extend(part["violations"])
             for l in part["known_lines"]:
@@ -452,6 +460,7 @@ def run_check(prop: str, engine_mods, tier: str, seed: int, replay: str | None =
             "samples": [s for p in parts for s in p["samples"]],
             "partial_clauses": [c for p in parts for c in p["partial_clauses"]],
             "correspondence": [p["correspondence"] for p in parts],
+            "anchors_changed": anchors_changed,
         }
         if not names:      # no theorem file yet: do not present proof-level counts
             for k in ("obligations", "discharged", "theorems"):
